@@ -821,8 +821,9 @@ func (o *ovsdbClient) Transact(ctx context.Context, operation ...ovsdb.Operation
 	logger := o.logFromContext(ctx)
 	o.rpcMutex.RLock()
 	if o.rpcClient == nil || !o.connected {
+		reconnect := o.options.reconnect
 		o.rpcMutex.RUnlock()
-		if o.options.reconnect {
+		if reconnect {
 			logger.V(5).Info("blocking transaction until reconnected", "operations",
 				fmt.Sprintf("%+v", operation))
 			ticker := time.NewTicker(50 * time.Millisecond)
@@ -1361,6 +1362,10 @@ func (o *ovsdbClient) handleDisconnectNotification() {
 		o.rpcClient = nil
 		// SetOption is allowed from now on: take what is needed under the lock
 		timeout, reconnectBackoff := o.options.timeout, o.options.backoff
+		lostEndpoint := ""
+		if len(o.endpoints) > 0 {
+			lostEndpoint = o.endpoints[0].address
+		}
 		o.rpcMutex.Unlock()
 		suppressionCounter := 1
 		connect := func() error {
@@ -1385,7 +1390,7 @@ func (o *ovsdbClient) handleDisconnectNotification() {
 			suppressionCounter++
 			return err
 		}
-		o.logger.V(3).Info("connection lost, reconnecting", "endpoint", o.endpoints[0].address)
+		o.logger.V(3).Info("connection lost, reconnecting", "endpoint", lostEndpoint)
 		err := backoff.Retry(connect, reconnectBackoff)
 		if err != nil {
 			// TODO: We should look at passing this back to the
